@@ -283,6 +283,25 @@ def check_interactive(ctx, spec, g, deps, ids, case):
         if set(nbs) != expected_keys:
             missing, extra = sorted(expected_keys - set(nbs)), sorted(set(nbs) - expected_keys)
             ctx.violation("C20:expansion-states-differ", f"{len(cont)} containers: valid states without diagram data {missing[:3]} ({len(missing)}), diagram data under keys that are no valid state {extra[:3]} ({len(extra)})", case)
+    # what render_graph returns at the top level (the diagram shown first) for every depth and output mode is the
+    # diagram of the matching expansion state: containers above that depth expanded, the others collapsed
+    maxd_ = max([i2.count("/") + 1 for i2 in cont] or [0])
+    for d_ in range(0, maxd_ + 1):
+        for sp in (False, True):
+            try:
+                rr = render_graph(flat, depth=d_, separate_outputs=sp)
+            except Exception as e:  # noqa: BLE001
+                ctx.violation("C20:render-raised", f"render_graph(depth={d_}, separate_outputs={sp}) raised {e!r}", case)
+                continue
+            body = ",".join(f"{c_}:{int(d_ > c_.count('/'))}" for c_ in cont)
+            key_ = (body + "|" if body else "") + f"sep:{int(sp)}"
+            ctx.obs["initial_views_checked"] += 1
+            top_nodes = sorted(n_["id"] for n_ in rr.get("nodes", []))
+            top_edges = sorted((e_["source"], e_["target"]) for e_ in rr.get("edges", []))
+            st_nodes = sorted(n_["id"] for n_ in rr["meta"]["nodesByState"].get(key_, []))
+            st_edges = sorted((e_["source"], e_["target"]) for e_ in rr["meta"]["edgesByState"].get(key_, []))
+            if key_ in rr["meta"]["nodesByState"] and (top_nodes != st_nodes or top_edges != st_edges):
+                ctx.violation("C20:initial-view-differs-from-its-state", f"render_graph(depth={d_}, separate_outputs={sp}) shows {len(top_nodes)} nodes / {len(top_edges)} edges at the top level; the data of its expansion state {key_!r} has {len(st_nodes)} nodes / {len(st_edges)} edges", {**case, "depth": d_, "separate_outputs": sp})
     keys = sorted(set(nbs) & set(ebs))
     if ctx.tier == "quick" and len(keys) > 24:
         keys = ctx.rng.sample(keys, 24)
@@ -698,6 +717,16 @@ def exclusive_container_specs():
         enc = {"k": "sub", "name": "encode", "prog": {"name": "encode", "nodes": [fn("tokenize", ["cleaned", "lang"] + (["mode"] if second_input else []), "tokens")], "bind": {}}}
         prep = {"k": "sub", "name": "prep", "prog": {"name": "prep", "nodes": [fn("clean", ["text", "lang"] + (["mode"] if second_input else []), "cleaned"), enc], "bind": {}}}
         out.append({"name": "deepin", "nodes": [prep, fn("use", ["tokens"], "used")], "bind": {}})
+    # (3) two sibling containers declared in NON-alphabetical order (the order of ids in a state key is not the
+    # declaration order), and a root-level waiter on a value produced two levels down
+    for first in ("zeta", "alpha"):
+        subs = {nm: {"k": "sub", "name": nm, "prog": {"name": nm, "nodes": [fn(nm + "_f", ["x"], nm + "_out")], "bind": {}}} for nm in ("zeta", "alpha")}
+        order = [subs["zeta"], subs["alpha"]] if first == "zeta" else [subs["alpha"], subs["zeta"]]
+        out.append({"name": "sibs", "nodes": order + [fn("join", ["zeta_out", "alpha_out"], "joined")], "bind": {}})
+    ingest = {"k": "sub", "name": "ingest", "prog": {"name": "ingest", "nodes": [fn("load", ["src"], "rows")], "bind": {}}}
+    pipeline = {"k": "sub", "name": "pipeline", "prog": {"name": "pipeline", "nodes": [ingest, fn("clean", ["rows"], "table")], "bind": {}}}
+    announce = {"k": "fn", "name": "announce", "params": [{"n": "who"}], "outs": ["note"], "wait": ["rows"]}
+    out.append({"name": "waitdeep", "nodes": [pipeline, announce], "bind": {}})
     return out
 
 
